@@ -143,6 +143,8 @@ def run(R, only_cases=None):
     R.assumptions += ["theorems cover schema-level malformation (arbitrary JSON after json.loads); byte-level corruption is handled by zipfile / json / numpy / scipy "
                       "and is only exercised (search support), see not_modelled"]
     R.notes["not_modelled"] = ["byte-level corruption inside zipfile, json.loads, np.load, scipy load_npz, Cython __setstate__", "interpreter recursion limit inside json.loads",
+                               "interpreter recursion limit on graph paths through repeated ids (a tower of 8 blocks of 60 nested lists chained by id references is shallow as JSON but deep as a walk: "
+                               "the model visualizes it, the implementation raises RecursionError -- both ordinary outcomes)",
                                "schemas nested deeper than ~250 levels (the implementation raises RecursionError before the model's fuel of 400 is reached)"]
     if snap is None:
         return
